@@ -182,7 +182,7 @@ func runC03(b *Batch) {
 				if cfg.SliceVals {
 					b.R.Count("runs.noncomparable_values", 1)
 				}
-				variant := []string{"", "precancel", "", "deadline"}[rep%4]
+				variant := []string{"", "precancel", "callerttl", "deadline"}[rep%4]
 				obs, x := c03Run(cfg, cell, rng, variant, false)
 				defer x.release()
 				b.R.Eval()
@@ -269,6 +269,8 @@ func runC03(b *Batch) {
 	}
 }
 
+var c03CallerTTL = 2 * time.Hour
+
 func c03Run(cfg foConfig, cell c03Cell, rng *rand.Rand, ctxVariant string, hostileDelete bool) (c03Obs, *foRun) {
 	sc := newSched(false, "random", rng)
 	sc.delayProb = 0
@@ -300,7 +302,11 @@ func c03Run(cfg foConfig, cell c03Cell, rng *rand.Rand, ctxVariant string, hosti
 	}
 	returned := make(chan struct{})
 	go func() {
-		r.doGet(0, getSpec{Key: 0, PreCancel: ctxVariant == "precancel", Deadline: ctxVariant == "deadline"})
+		sp := getSpec{Key: 0, PreCancel: ctxVariant == "precancel", Deadline: ctxVariant == "deadline"}
+		if ctxVariant == "callerttl" {
+			sp.CallerTTL = &c03CallerTTL
+		}
+		r.doGet(0, sp)
 		close(returned)
 	}()
 	select {
@@ -373,6 +379,20 @@ func c03Run(cfg foConfig, cell c03Cell, rng *rand.Rand, ctxVariant string, hosti
 		}
 	default:
 		o.Backend = fmt.Sprintf("other:%v/%v", v, err)
+	}
+	if ctxVariant == "callerttl" {
+		// the caller asked for 2h: its context still says so, and a rebuilt value is fresh for about that long
+		if time.Duration(ret.TTL) != c03CallerTTL {
+			o.Result += fmt.Sprintf("+caller-ctx-ttl-altered-to-%v", time.Duration(ret.TTL))
+		}
+		if o.Backend == "new" {
+			r.be.Walk(func(k []byte, _ interface{}, exp time.Time) error {
+				if string(k) == "the-key" && time.Until(exp) < c03CallerTTL/2 {
+					o.Backend = fmt.Sprintf("new-but-expires-in-%v", time.Until(exp).Round(time.Second))
+				}
+				return nil
+			})
+		}
 	}
 	r.fo.ErrorsWalk(func(k []byte, e error, exp time.Time) {
 		if string(k) == "the-key" && exp.After(time.Now()) {
